@@ -373,7 +373,7 @@ func runC05(p *an.Prog, r *an.Run, tier string) {
 					bad = append(bad, o.Kind.String()+" at "+p.Pos(o.In.Pos())+" is not keyed by the identity parameter")
 				}
 			} else {
-				d := p.Derives(0, o.Key)
+				d := p.Derives(2, o.Key)
 				if !d.HasParam(idPrm) {
 					bad = append(bad, o.Kind.String()+" at "+p.Pos(o.In.Pos())+": key does not derive from the identity parameter")
 				}
